@@ -126,8 +126,15 @@ func runC13(h rmHist, st *c13stats) (out []*c12result) {
 		hash []byte
 	}
 	var recs []commitRec
+	lazy := h.Reopen == 2
 	for vi, cs := range h.Choice {
 		v := int64(vi + 1)
+		if h.Reopen > 0 && v > 1 {
+			// the node was restarted since its last commit
+			if s, err = rmOpenLazy(db, h.N, h.Pruning, -1, lazy); err != nil {
+				return fail("reopen-between-commits", "reopening before commit %d fails: %v", v, err)
+			}
+		}
 		for i, c := range cs {
 			rmApplyChoice(s.kv(i), models[i], c)
 		}
@@ -169,7 +176,7 @@ func runC13(h rmHist, st *c13stats) (out []*c12result) {
 			}
 			func() {
 				cdb := crashdb.FromSnapshot(rec.pre, cs.units)
-				s2, err := rmOpen(cdb, h.N, h.Pruning, -1)
+				s2, err := rmOpenLazy(cdb, h.N, h.Pruning, -1, lazy)
 				where := classifyCrash(cs, rec.log)
 				if v == 1 {
 					where += "|first-commit"
@@ -213,7 +220,7 @@ func runC13(h rmHist, st *c13stats) (out []*c12result) {
 					fail("next-commit|"+where+"|"+pr, "crash during commit %d at [%s]: the following commit returned version %d", v, cs.name, cid.Version)
 					return
 				}
-				s4, err := rmOpen(crashdb.FromSnapshot(cdb.Snapshot(), nil), h.N, h.Pruning, -1)
+				s4, err := rmOpenLazy(crashdb.FromSnapshot(cdb.Snapshot(), nil), h.N, h.Pruning, -1, lazy)
 				if err != nil {
 					fail("next-reopen-fails|"+where+"|"+pr, "crash during commit %d at [%s]: after recovery and one more commit, reopening fails: %v", v, cs.name, err)
 					return
@@ -408,42 +415,58 @@ func C13(tier string) int {
 	sem := make(chan struct{}, runtime.NumCPU())
 	var wg sync.WaitGroup
 	var desc []string
-	for _, j := range jobs {
-		cnt := int64(0)
-		for _, pr := range rmPrunings {
-			pr := pr
-			var batch [][][]int
-			flush := func(b [][][]int) {
-				wg.Add(1)
-				sem <- struct{}{}
-				go func() {
-					defer wg.Done()
-					defer func() { <-sem }()
-					for _, ch := range b {
-						h := rmHist{N: j.n, Choice: ch, Pruning: pr}
-						for _, r := range runC13(h, st) {
-							mu.Lock()
-							run.Report(r.sig, r.what, h)
-							mu.Unlock()
-						}
-					}
-				}()
-			}
-			enumChoices(j.n, j.v, j.choices, func(ch [][]int) {
-				cnt++
-				batch = append(batch, copyChoices(ch))
-				if len(batch) == 64 {
-					flush(batch)
-					batch = nil
-				}
-			})
-			if len(batch) > 0 {
-				flush(batch)
-			}
-		}
-		total += cnt
-		desc = append(desc, fmt.Sprintf("N=%d V=%d choices=%d: %d histories x %d pruning options", j.n, j.v, j.choices, cnt/int64(len(rmPrunings)), len(rmPrunings)))
+	// passes: plain; the node restarted before every commit (eager / lazy loading); store names that
+	// are proper prefixes of each other
+	type mode struct {
+		names, reopen int
+		what          string
 	}
+	modes := []mode{{0, 0, ""}, {0, 1, " [reopened before every commit]"}, {0, 2, " [reopened lazily before every commit]"}, {1, 0, " [stores acc, accounts, a]"}}
+	for _, md := range modes {
+		md := md
+		atomic.StoreInt32(&rmNameVariant, int32(md.names))
+		for _, j := range jobs {
+			if md.names == 1 && j.n < 2 {
+				continue
+			}
+			cnt := int64(0)
+			for _, pr := range rmPrunings {
+				pr := pr
+				var batch [][][]int
+				flush := func(b [][][]int) {
+					wg.Add(1)
+					sem <- struct{}{}
+					go func() {
+						defer wg.Done()
+						defer func() { <-sem }()
+						for _, ch := range b {
+							h := rmHist{N: j.n, Choice: ch, Pruning: pr, Names: md.names, Reopen: md.reopen}
+							for _, r := range runC13(h, st) {
+								mu.Lock()
+								run.Report(r.sig, r.what, h)
+								mu.Unlock()
+							}
+						}
+					}()
+				}
+				enumChoices(j.n, j.v, j.choices, func(ch [][]int) {
+					cnt++
+					batch = append(batch, copyChoices(ch))
+					if len(batch) == 64 {
+						flush(batch)
+						batch = nil
+					}
+				})
+				if len(batch) > 0 {
+					flush(batch)
+				}
+			}
+			total += cnt
+			desc = append(desc, fmt.Sprintf("N=%d V=%d choices=%d: %d histories x %d pruning options%s", j.n, j.v, j.choices, cnt/int64(len(rmPrunings)), len(rmPrunings), md.what))
+		}
+		wg.Wait()
+	}
+	atomic.StoreInt32(&rmNameVariant, 0)
 	// application-level crash enumeration
 	appPrunings := [][2]int64{{0, 1}, {0, 0}, {1, 2}}
 	if tier == "thorough" {
@@ -476,7 +499,7 @@ func C13(tier string) int {
 	run.Set("commits", st.commits)
 	run.Set("crash_states", st.crashStates)
 	run.Set("jobs", desc)
-	run.Set("rule", "for every write history, every commit, every crash state = pre-commit database + a subset of substores fully committed + at most one substore between its save batch and its prune batch (commutation closure over substore order), plus the complete commit; each crash state is reopened, checked for a single consistent version, the interrupted block re-executed and one more block committed; every crash state is distinct by construction (history, commit, set of applied write units); non-trivial = a proper partial state: at least one and not all of the commit's write units reached the database")
+	run.Set("rule", "for every write history, every commit, every crash state = pre-commit database + a subset of substores fully committed + at most one substore between its save batch and its prune batch (commutation closure over substore order), plus the complete commit; each crash state is reopened, checked for a single consistent version, the interrupted block re-executed and one more block committed; the whole enumeration is repeated with the store reopened before every commit (eager and lazy loading) and with store names that are proper prefixes of each other; every crash state is distinct by construction (history, commit, set of applied write units); non-trivial = a proper partial state: at least one and not all of the commit's write units reached the database")
 	run.Sample("N=2 pruning=(0,0) v1[k1=a | k2=a] v2[del k1 | -], crash during commit 2 at [done={s1}+s2:1/2]")
 	run.Assume("a Batch.Write is atomic (goleveldb journal); Write and WriteSync are not distinguished", "units of different substores touch disjoint key prefixes (checked on every log)", "MemDB stands in for the on-disk database")
 	return run.Finish()
